@@ -205,7 +205,7 @@ static void table_mutations(const Enc& e, Rng& r, std::vector<TMut>& out) {
     }
     // ---- declared sizes far beyond the data: 2^64-1, 2^64-2, 2^64-value size, 2^63, 2^32 (a limit check that wraps accepts these)
     for (size_t i = 0; i < k && i < 3; i++) { const EntrySpan& s = g.ents[i]; Bytes val(e.out.begin() + s.val_off, e.out.begin() + s.end_off);
-      for (uint64_t huge : {~0ull, ~0ull - 1, 0ull - (uint64_t)val.size(), 0ull - (uint64_t)(s.val_off), 1ull << 63, 1ull << 32}) { std::vector<Bytes> pe = eb; pe[i] = make_entry(s.id, val, huge); out.push_back({rebuild(e, g, pe, k), fmt("entry %zu declared size %" PRIu64 " (bytes kept)", i, huge), false}); } }
+      for (uint64_t huge : {~0ull, ~0ull - 1, 0ull - (uint64_t)val.size(), 0ull - (uint64_t)(s.val_off), 1ull << 63, 1ull << 32, (1ull << 32) + (uint64_t)val.size(), (1ull << 16) + (uint64_t)val.size(), (1ull << 48) + (uint64_t)val.size() + 1}) { /* a narrow limit counter sees only the low bits: 2^k + real size looks fine to it */ std::vector<Bytes> pe = eb; pe[i] = make_entry(s.id, val, huge); out.push_back({rebuild(e, g, pe, k), fmt("entry %zu declared size %" PRIu64 " (bytes kept)", i, huge), false}); } }
     // ---- entry count +-1
     out.push_back({rebuild(e, g, eb, k + 1), "entry count + 1", false});
     if (k) out.push_back({rebuild(e, g, eb, k - 1), "entry count - 1", false});
